@@ -52,7 +52,7 @@ P = "pymbolic.primitives."
 # {{{ generation
 
 
-def _gen_list(r, wrapper_free, nv, shared_blocks=None):
+def _gen_list(r, wrapper_free, nv, shared_blocks=None, shared_wrapped=None):
     """-> list of terms with deliberate repetition; shared_blocks carries building blocks
     from one list of the run to the next, so later lists repeat parts of earlier ones"""
     vars_ = ["a", "b", "c", "d"]
@@ -93,9 +93,13 @@ def _gen_list(r, wrapper_free, nv, shared_blocks=None):
                       "Call", "Call"])
         if k in ("Sum", "Product"):
             n = r.randint(2, 3)
+            if r.random() < 0.05:
+                n = 1                     # a one-operand sum/product is a legal node
             kids = [expr(d + 1, maxd) for _ in range(n)]
             if r.random() < 0.2:
                 kids.append(kids[0])      # multiplicity: a*b*a vs a*a*b
+            if r.random() < 0.08:
+                kids = [kids[0], kids[0]]  # t + t
             return ["n", k, [["t", kids]]]
         if k in ("Quotient", "FloorDiv"):
             return ["n", k, [expr(d + 1, maxd), expr(d + 1, maxd)]]
@@ -110,6 +114,12 @@ def _gen_list(r, wrapper_free, nv, shared_blocks=None):
             b = expr(1, r.choice([2, 3]))
             if size(b) <= 30:
                 blocks.append(b)
+                if not nv and r.random() < 0.3:
+                    # an unequal twin whose hash is the same (-1 <-> -2, class swap)
+                    # (no Quotient <-> Power swap: a power with a computed exponent explodes)
+                    tw = spec.collide_variant(r, b, allowed=["Sum", "Product"])
+                    if tw is not None:
+                        blocks.append(tw)
                 break
     out = []
     for _ in range(r.randint(1, 5)):
@@ -136,6 +146,30 @@ def _gen_list(r, wrapper_free, nv, shared_blocks=None):
                     t2 = ["n", "CommonSubexpression", [t2, ["none"], ["s", "pymbolic_eval"]]]
             return t2
         out = [prewrap(t) for t in out]
+        if shared_wrapped is not None:
+            # pre-wrapped lists of one run repeat each other's wrapped sub-terms verbatim
+            # (equal wrappers, distinct objects)
+            if shared_wrapped and r.random() < 0.7:
+                w = r.choice(shared_wrapped)
+                out[r.randrange(len(out))] = ["n", "Sum", [["t", [w, leaf()]]]]
+
+            def wrapped_subterms(t, acc):
+                if t[0] == "n":
+                    if t[1] == "CommonSubexpression":
+                        acc.append(t)
+                    for f in t[2]:
+                        if f[0] == "t":
+                            for x in f[1]:
+                                wrapped_subterms(x, acc)
+                        else:
+                            wrapped_subterms(f, acc)
+            acc = []
+            for t in out:
+                wrapped_subterms(t, acc)
+            for w in acc[:3]:
+                if size(w) <= 40:
+                    shared_wrapped.append(w)
+            del shared_wrapped[:-6]
     return out
 
 
@@ -165,26 +199,32 @@ def generate(seed, tier):
         ev = {"ev": 0, "cached": r.random() < 0.3, "vars": _gen_vars(r)}
         nrounds = r.randint(6, 18)
         shared = []
+        shared_w = []
         for lid in range(nrounds):
             if len(shared) > 8:
                 del shared[:4]
-            terms = _gen_list(r, True, False, shared if r.random() < 0.7 else None)
-            ops.append(["list", lid, terms, True])
+            wf = r.random() < 0.6
+            terms = _gen_list(r, wf, False, shared if r.random() < 0.7 else None, shared_w)
+            ops.append(["list", lid, terms, wf])
             ops.append(["tag", lid])
             if r.random() < 0.5:
                 ops.append(["evalall", {"ev": 100 + lid, "cached": r.random() < 0.3,
                                         "vars": _gen_vars(r)}, lid, list(range(len(terms)))])
             else:
                 for _ in range(r.randint(1, 3)):
-                    ops.append(["eval", ev, ["tagged", lid, r.randrange(len(terms))], None])
+                    # (the tagger resets scopes; the original and the histogram tagger's
+                    # output keep pre-existing wrappers as they are)
+                    ops.append(["eval", ev, [r.choice(["tagged", "tagged", "orig", "tagged2"]),
+                                             lid, r.randrange(len(terms))], None])
             ops.append(["drop", lid])
         return {"config": {"nv": False, "fault_run": False, "churn": True}, "ops": ops}
     nlists = r.randint(1, 3)
     lists = []
     shared = []
+    shared_w = []
     for lid in range(nlists):
         wf = r.random() < 0.6
-        terms = _gen_list(r, wf, nv, shared if r.random() < 0.6 else None)
+        terms = _gen_list(r, wf, nv, shared if r.random() < 0.6 else None, shared_w)
         ops.append(["list", lid, terms, wf])
         lists.append((lid, len(terms), wf))
     nev = r.randint(1, 4)
@@ -686,6 +726,8 @@ def execute(scenario, open_sigs):
                 events.append([opi, "evalall", desc["ev"], lid, len(allcomps)])
                 continue
             if k == "drop":
+                # nothing the simulator still holds may keep the list's objects alive
+                expr = got = comps = allcomps = x = cpt = c = occ = None
                 L = lists.pop(op[1], None)
                 if L is not None:
                     # let go of every reference the simulator holds so the objects die
